@@ -1018,7 +1018,7 @@ void ReadLn(FILE* Datei, char* Zeile) {
     int   l;
 
     *Zeile = '\0';
-    ptr    = fgets(Zeile, 256, Datei);
+    ptr    = fgets(Zeile, STRINGSIZE, Datei); /* the callers hand in a String (256 once) */
     if ((!ptr) && (ferror(Datei) != 0)) {
         *Zeile = '\0';
     }
